@@ -14,6 +14,7 @@ import (
 	"github.com/aws/aws-sdk-go-v2/aws"
 	"github.com/aws/aws-sdk-go-v2/feature/s3/manager"
 	"github.com/aws/aws-sdk-go-v2/service/s3"
+	"github.com/aws/aws-sdk-go-v2/service/s3/types"
 	"github.com/jdillenkofer/pithos/internal/ioutils"
 	"github.com/jdillenkofer/pithos/internal/ptrutils"
 	"github.com/jdillenkofer/pithos/internal/storage"
@@ -165,6 +166,9 @@ func migrateSingleObject(ctx context.Context, source, destination storage.Storag
 	input.Expires = parseExpires(metadata.Expires)
 	input.WebsiteRedirectLocation = metadata.WebsiteRedirectLocation
 	input.Metadata = metadata.UserMetadata
+	if srcObject.StorageClass != nil {
+		input.StorageClass = types.StorageClass(*srcObject.StorageClass)
+	}
 	_, err = uploader.Upload(ctx, input)
 	if err != nil {
 		return err
@@ -206,6 +210,15 @@ func objectMetadataFromSDKInput(cacheControl, contentDisposition, contentEncodin
 	}
 }
 
+// storageClassFromSDKInput converts the storage class of an SDK
+// Put/CreateMultipartUpload input; an unset class stays nil (STANDARD).
+func storageClassFromSDKInput(storageClass types.StorageClass) *string {
+	if storageClass == "" {
+		return nil
+	}
+	return ptrutils.ToPtr(string(storageClass))
+}
+
 // encodeTaggingHeader encodes a tag set as an x-amz-tagging header value.
 // Returns nil for an empty tag set.
 func encodeTaggingHeader(tags map[string]string) *string {
@@ -245,9 +258,10 @@ func (a *StorageToS3UploadAPIClientAdapter) CreateMultipartUpload(ctx context.Co
 		return nil, err
 	}
 	metadata := objectMetadataFromSDKInput(input.CacheControl, input.ContentDisposition, input.ContentEncoding, input.ContentLanguage, input.Expires, input.WebsiteRedirectLocation, input.Metadata)
+	storageClass := storageClassFromSDKInput(input.StorageClass)
 	var createOpts *storage.CreateMultipartUploadOptions
-	if len(tags) > 0 || metadata != nil {
-		createOpts = &storage.CreateMultipartUploadOptions{Tags: tags, Metadata: metadata}
+	if len(tags) > 0 || metadata != nil || storageClass != nil {
+		createOpts = &storage.CreateMultipartUploadOptions{Tags: tags, Metadata: metadata, StorageClass: storageClass}
 	}
 	result, err := a.storage.CreateMultipartUpload(ctx, storage.MustNewBucketName(*input.Bucket), storage.MustNewObjectKey(*input.Key), input.ContentType, nil, createOpts)
 	if err != nil {
@@ -331,9 +345,10 @@ func (a *StorageToS3UploadAPIClientAdapter) PutObject(ctx context.Context, input
 		return nil, err
 	}
 	metadata := objectMetadataFromSDKInput(input.CacheControl, input.ContentDisposition, input.ContentEncoding, input.ContentLanguage, input.Expires, input.WebsiteRedirectLocation, input.Metadata)
+	storageClass := storageClassFromSDKInput(input.StorageClass)
 	var putObjectOptions *storage.PutObjectOptions
-	if len(tags) > 0 || metadata != nil {
-		putObjectOptions = &storage.PutObjectOptions{Tags: tags, Metadata: metadata}
+	if len(tags) > 0 || metadata != nil || storageClass != nil {
+		putObjectOptions = &storage.PutObjectOptions{Tags: tags, Metadata: metadata, StorageClass: storageClass}
 	}
 	result, err := a.storage.PutObject(ctx, storage.MustNewBucketName(*input.Bucket), storage.MustNewObjectKey(*input.Key), input.ContentType, input.Body, nil, putObjectOptions)
 	if err != nil {
